@@ -5,7 +5,7 @@ CONSTANTS
   Ops <- OpsQuick
   MaxOps = 3
   Notifs <- NotifsA
-  MaxNotif = 1
+  MaxNotif = 0
   MaxDup = 0
   DistinctPatterns = FALSE
   Bug = "none"
